@@ -33,9 +33,9 @@ MANIFEST = dict(
     level='exploration',
     technique='bounded-exhaustive enumeration with a witness-controlling seam on random.randint, against '
               'sieve / brute-force / definition references',
-    text='is_prime: every witness a in [2,x-2] for all odd x < 3000 and for all composites < 20000 (60000 thorough) '
+    text='is_prime: every witness a in [2,x-2] for all odd x < 3000 and for all composites < 12000 (60000 thorough) '
          'that survive the trial division (primes never rejected, composite accepted iff a is a strong liar), '
-         'round-count logic, all x < 2*10^5 (2*10^6) and 2^j+d (j <= 128/200, |d| <= 40) with 13 fixed bases, known '
+         'round-count logic, all x < 2*10^5 (2*10^6) and 2^j+d (j <= 128, |d| <= 20; thorough j <= 200, |d| <= 40) with 13 fixed bases, known '
          'strong pseudoprimes/Carmichael numbers; next_prime/prev_prime on the same ranges; invert, gcdext (GMP '
          'normalisation found by brute force), powmod for all |a|,|b| <= 60 (100); legendre/jacobi/kronecker vs '
          'definitions for all x,y in +-60 (+-150) and 2^j+-1 numerators; isqrt/iroot/is_square for all n < 10^4 '
@@ -58,39 +58,13 @@ HARD = [2047, 3277, 4033, 4681, 8321, 1373653, 25326001, 3215031751, 21523028987
 HARD_FACT = {3215031751: (151, 751, 28351), 318665857834031151167461: (399165290221, 798330580441)}
 
 
-class Seam:
-    """Stands in for the `random` module inside mpyc.gmpy."""
-
-    def __init__(self):
-        self.script = None
-        self.pos = 0
-        self.calls = 0
-
-    def feed(self, script):
-        self.script = script
-        self.pos = 0
-        self.calls = 0
-
-    def randint(self, lo, hi):
-        self.calls += 1
-        if self.script is None:
-            a = BASES[self.pos % len(BASES)]
-        else:
-            a = self.script[self.pos % len(self.script)]
-        self.pos += 1
-        return a
-
-    def __getattr__(self, name):
-        raise AttributeError(f'C25 seam: mpyc.gmpy used random.{name}; only randint is modelled')
-
-
 def load():
     os.environ['MPYC_NOGMPY'] = '1'
     import mpyc.gmpy as g
     if g.version() != 'MPyC stubs':
         raise RuntimeError('gmpy2 was loaded before the driver could select the stubs')
-    if not isinstance(getattr(g, 'random', None), Seam):
-        g.random = Seam()
+    if not isinstance(getattr(g, 'random', None), R.WitnessSeam):
+        g.random = R.WitnessSeam()
     return g, g.random
 
 
@@ -382,7 +356,7 @@ def jobs(tier, seed):
     q = tier == 'quick'
     js = []
     # (1) every witness
-    wl = 20000 if q else 60000
+    wl = 12000 if q else 60000
     spf = R.spf_table(wl)
     surv = [x for x in range(3000, wl) if spf[x] >= 59 and spf[x] != x]
     js += [dict(kind='witness_small', lo=a, hi=b) for a, b in chunks(0, 3000, 6)]
@@ -394,7 +368,7 @@ def jobs(tier, seed):
     js += [dict(kind='sweep', lo=a, hi=b) for a, b in chunks(-20, top, 16 if q else 48)]
     # (3) large alphabet
     jm = 128 if q else 200
-    js += [dict(kind='large', js=list(range(6, jm + 1))[i::8]) for i in range(8)]
+    js += [dict(kind='large', js=list(range(6, jm + 1))[i::8], dmax=20 if q else 40) for i in range(8)]
     js.append(dict(kind='hard'))
     # (4) arithmetic
     r = 60 if q else 100
@@ -414,6 +388,8 @@ def jobs(tier, seed):
     ry, rfull = (200, 64) if q else (200, 128)
     ys = list(range(-2, ry))
     js += [dict(kind='ratrec', ys=ys[i::8], full=rfull) for i in range(8)]
+    order = ['fpp_big', 'witness_surv', 'large', 'fpp', 'sweep']          # longest first (pool balance only)
+    js.sort(key=lambda j: order.index(j['kind']) if j['kind'] in order else len(order))
     return js
 
 
@@ -493,7 +469,7 @@ def job_sweep(part, g, seam, job):
 
 def job_large(part, g, seam, job):
     for j in job['js']:
-        for dlt in range(-40, 41):
+        for dlt in range(-job['dmax'], job['dmax'] + 1):
             x = 2**j + dlt
             truth = bases_is_prime(x)
             if dlt == -1 and j <= 1300:
